@@ -72,7 +72,39 @@ let ops_case toks =
       (match M.compute_shoup w p y with
        | None -> "none none"
        | Some y' -> Printf.sprintf "%s %s" (str (M.muladd_shoup w p z x y y')) (str (zmod ((x *! y) +! z) p)))
+  | [ "bfly"; w; p; wt; a; b ] ->
+      (* the lazy Harvey butterfly on arbitrary words; spec = ((a+b) mod p, (a-b)*wt mod p), compared modulo p by the caller *)
+      let w, p, wt, a, b = (cz w, cz p, cz wt, cz a, cz b) in
+      (match M.compute_shoup w p wt with
+       | None -> "none none"
+       | Some wt' -> let (s, d) = M.bfly_lazy w p wt wt' a b in
+                     Printf.sprintf "%s:%s %s:%s" (str s) (str d) (str (zmod (a +! b) p)) (str (zmod ((a -! b) *! wt) p)))
   | _ -> "badcase"
+
+(* ------------------------------------------------------------------ C05: per-lane models of the SSE/AVX2 kernels on the same case lines *)
+let lanes_case toks =
+  match toks with
+  | [ "addmod"; w; p; x; y ] when w <> "64" ->
+      let w, p, x, y = (cz w, cz p, cz x, cz y) in
+      (* the whole-vector model (4 identical lanes) and the lane model must agree *)
+      let v = M.addmod_vec w p [ x; x; x; x ] [ y; y; y; y ] and l = M.lane_add w p x y in
+      if List.for_all (fun z -> z = l) v then str l else "vecmismatch"
+  | [ "submod"; w; p; x; y ] when w <> "64" -> let w, p, x, y = (cz w, cz p, cz x, cz y) in str (M.lane_sub w p x y)
+  | [ "mulmod_shoup"; w; p; x; y ] when w <> "64" ->
+      let wz, p, x, y = (cz w, cz p, cz x, cz y) in
+      (match M.compute_shoup wz p y with
+       | None -> "none"
+       | Some y' -> str (if w = "32" then M.lane_mulshoup32 p x y y' else M.lane_mulshoup16 p x y y'))
+  | [ "muladd_shoup"; "16"; p; z; x; y ] ->
+      let p, z, x, y = (cz p, cz z, cz x, cz y) in
+      (match M.compute_shoup (czi 16) p y with None -> "none" | Some y' -> str (M.lane_muladdshoup16 p z x y y'))
+  | [ "bfly"; w; p; wt; a; b ] ->
+      let w, p, wt, a, b = (cz w, cz p, cz wt, cz a, cz b) in
+      (match M.compute_shoup w p wt with
+       | None -> "none"
+       | Some wt' -> let (s, d) = M.lane_bfly w p wt wt' a b and (s', d') = M.bfly_lazy w p wt wt' a b in
+                     if s = s' && d = d' then Printf.sprintf "%s:%s" (str s) (str d) else "lanemodel_ne_scalar")
+  | _ -> "na"
 
 (* ------------------------------------------------------------------ C01/C02: transforms *)
 let rows_of w = if w = 16 then M.rows16 else if w = 32 then M.rows32 else M.rows64
@@ -570,7 +602,7 @@ let gauss_case toks =
       r ^ " # " ^ r
   | _ -> "badcase"
 
-let dispatch : (string * (string list -> string)) list ref = ref [ ("ops", ops_case); ("ntt", ntt_case); ("expr", expr_case); ("crt", crt_case); ("set", set_case); ("serial", serial_case); ("rb", rb_case); ("prng", prng_case); ("samp", samp_case); ("gauss", gauss_case) ]
+let dispatch : (string * (string list -> string)) list ref = ref [ ("ops", ops_case); ("lanes", lanes_case); ("ntt", ntt_case); ("expr", expr_case); ("crt", crt_case); ("set", set_case); ("serial", serial_case); ("rb", rb_case); ("prng", prng_case); ("samp", samp_case); ("gauss", gauss_case) ]
 
 let () =
   let family = if Array.length Sys.argv > 1 then Sys.argv.(1) else "ops" in
